@@ -68,10 +68,10 @@ theorem wire_at {P : Store} {m : OutMsg} (h : Wire P m) (hk : m.kind ≠ "4") :
   cases h with
   | stored h => exact ⟨_, h, rfl, rfl⟩
   | @resent m0 h happ => exact ⟨m0, h, rfl, (resent_get? m0 9000 (by decide) (by decide)).symm⟩
-  | gap b e => exact absurd rfl hk
+  | gap b e l => exact absurd rfl hk
 
 theorem wire_gap_inv {P : Store} (hP : StoreOK P) {m : OutMsg} (h : Wire P m) (hk : m.kind = "4") :
-    ∃ b e, m = gapFill b e ∧ b < e ∧ e ≤ P.sender ∧ -9223372036854775808 ≤ b ∧
+    ∃ b e l, m = gapFillL b e l ∧ b < e ∧ e ≤ P.sender ∧ -9223372036854775808 ≤ b ∧
       ∀ p ∈ P.msgs, b ≤ p.1 → p.1 < e → isAdminKind p.2.kind = true := by
   cases h with
   | stored h => exact absurd hk (hP.ent _ h).2.2.2.k4
@@ -79,7 +79,7 @@ theorem wire_gap_inv {P : Store} (hP : StoreOK P) {m : OutMsg} (h : Wire P m) (h
     have : m0.kind = "4" := hk
     rw [this] at happ
     exact absurd happ (by decide)
-  | gap b e hbe he hb hadm => exact ⟨b, e, rfl, hbe, he, hb, hadm⟩
+  | gap b e l hbe he hb hadm => exact ⟨b, e, l, rfl, hbe, he, hb, hadm⟩
 
 /-! ### advancing the expected number -/
 
@@ -183,7 +183,7 @@ theorem K_handleLogout {c : Ctx} (hc : CtxOK c) {s : Sess} (hk : K c s) {m : Out
   rw [verifySelect_pool hc hk.cfg hw]
   simp only [Bool.false_eq_true, false_and, if_false, if_true]
   generalize hx : (if (s.emit (cbObs s (toIn c.pcfg m))).st.loggedOn = true
-      then sendInReplyTo (s.emit (cbObs s (toIn c.pcfg m))) (mkOut "5" []) else s.emit (cbObs s (toIn c.pcfg m))) = x
+      then sendInReplyTo (s.emit (cbObs s (toIn c.pcfg m))) ((mkOut "5" []).inReplyTo (toIn c.pcfg m)) else s.emit (cbObs s (toIn c.pcfg m))) = x
   have hX : SExt s x := by
     rw [← hx]
     have := sext_emit_cb_admin s c.pcfg m ha
@@ -206,7 +206,7 @@ theorem wire_stored_of_admin {P : Store} {m : OutMsg} (hw : Wire P m) (ha : isAd
   | @resent m0 h happ =>
     have : isAdminKind m0.kind = true := ha
     rw [this] at happ; cases happ
-  | gap b e => exact absurd rfl hk4
+  | gap b e l => exact absurd rfl hk4
 
 theorem K_handleTestRequest {c : Ctx} (hc : CtxOK c) {s : Sess} (hk : K c s) {m : OutMsg} (hw : Wire c.P m)
     (ha : isAdminKind m.kind = true) (hk4 : m.kind ≠ "4") : K c (handleTestRequest s (toIn c.pcfg m)).1 := by
@@ -235,19 +235,19 @@ theorem getBool_Y (im : InMsg) (t : Nat) (h : im.f.get? t = some "Y") : getBool 
 
 theorem K_handleSequenceReset {c : Ctx} (hc : CtxOK c) {s : Sess} (hk : K c s) {m : OutMsg} (hw : Wire c.P m)
     (hk4 : m.kind = "4") : K c (handleSequenceReset s (toIn c.pcfg m)).1 := by
-  obtain ⟨b, e, rfl, hbe, he, hb, hadm⟩ := wire_gap_inv hc.pok hw hk4
-  have h123 : getBool (toIn c.pcfg (gapFill b e)) 123 = .val true :=
-    getBool_Y _ _ (by rw [toIn_get_body _ _ 123 (by decide)]; simp [gapFill, get?_cons])
+  obtain ⟨b, e, l, rfl, hbe, he, hb, hadm⟩ := wire_gap_inv hc.pok hw hk4
+  have h123 : getBool (toIn c.pcfg (gapFillL b e l)) 123 = .val true :=
+    getBool_Y _ _ (by rw [toIn_get_body _ _ 123 (by decide)]; simp [gapFillL, gapFill, get?_cons])
   have hbound := hc.bound
-  have h36 : getInt (toIn c.pcfg (gapFill b e)) 36 = .val e :=
-    getInt_of_get? _ _ _ (by rw [toIn_get_body _ _ 36 (by decide)]; simp [gapFill, get?_cons])
+  have h36 : getInt (toIn c.pcfg (gapFillL b e l)) 36 = .val e :=
+    getInt_of_get? _ _ _ (by rw [toIn_get_body _ _ 36 (by decide)]; simp [gapFillL, gapFill, get?_cons])
       (by unfold inInt64; unfold maxSeq at hbound; omega)
   unfold handleSequenceReset
   rw [h123]
   simp only []
   rw [verifySelect_pool hc hk.cfg hw]
   simp only [true_and, if_true]
-  have hseq : (gapFill b e).seq = b := rfl
+  have hseq : (gapFillL b e l).seq = b := rfl
   rw [hseq]
   by_cases h1 : b < s.store.target
   · simp only [h1, if_true]; exact K_reject_low hc hk hw _ _
@@ -256,10 +256,10 @@ theorem K_handleSequenceReset {c : Ctx} (hc : CtxOK c) {s : Sess} (hk : K c s) {
     · simp only [h1, h2, if_false]
       rw [h36]
       simp only []
-      have hX := sext_emit_cb_admin s c.pcfg (gapFill b e) (show isAdminKind "4" = true by decide)
+      have hX := sext_emit_cb_admin s c.pcfg (gapFillL b e l) (show isAdminKind "4" = true by decide)
       have hk' := hX.K hk
-      have ht : (s.emit (cbObs s (toIn c.pcfg (gapFill b e)))).store.target = s.store.target := rfl
-      have hgt : e > (s.emit (cbObs s (toIn c.pcfg (gapFill b e)))).store.target := by rw [ht]; omega
+      have ht : (s.emit (cbObs s (toIn c.pcfg (gapFillL b e l)))).store.target = s.store.target := rfl
+      have hgt : e > (s.emit (cbObs s (toIn c.pcfg (gapFillL b e l)))).store.target := by rw [ht]; omega
       rw [if_pos hgt]
       exact hk'.setT hc e (by rw [ht]; omega) he (by
         intro p hp h3 h4
@@ -293,13 +293,16 @@ theorem K_handleResendRequest {c : Ctx} (hc : CtxOK c) {s : Sess} (hk : K c s) {
     · rename_i hcond
       simp only [Bool.or_eq_true, decide_eq_true_eq, not_or] at hcond
       omega
-  have hX : SExt s (resendMessages s1 b e') :=
-    h0.trans (sext_resendMessages s1 b e' (by unfold inInt64 at hb64; omega) hle)
+  generalize hs1r : s1.setReplyLast (replyLastOf s1 (toIn c.pcfg m)) = s1r
+  have h0r : SExt s s1r := by rw [← hs1r]; exact xpeel_setReplyLast _ h0
+  have hle : e' ≤ s1r.store.sender - 1 := by rw [← hs1r]; exact hle
+  have hX : SExt s (resendMessages s1r b e') :=
+    h0r.trans (sext_resendMessages s1r b e' (by unfold inInt64 at hb64; omega) hle)
   have e2 := hX.ext.tgt
   rw [checkTooLow_pool hc hw, checkTooHigh_pool hc hw]
-  by_cases h1 : m.seq < (resendMessages s1 b e').store.target
+  by_cases h1 : m.seq < (resendMessages s1r b e').store.target
   · simp only [h1, if_true, Option.isSome_some]; exact hX.K hk
-  · by_cases h2 : m.seq > (resendMessages s1 b e').store.target
+  · by_cases h2 : m.seq > (resendMessages s1r b e').store.target
     · simp only [h1, h2, if_true, if_false, Option.isSome_some, Option.isSome_none, Bool.false_eq_true]; exact hX.K hk
     · simp only [h1, h2, if_false, Option.isSome_none, Bool.false_eq_true]
       exact K_finish_admin hc hk hw hX ha hk4 (by omega) (by omega)
